@@ -2,6 +2,9 @@ module verifh
 
 go 1.14
 
-require github.com/256dpi/gomqtt v0.0.0
+require (
+	github.com/256dpi/gomqtt v0.0.0
+	github.com/gorilla/websocket v1.4.1
+)
 
 replace github.com/256dpi/gomqtt => /repo
